@@ -95,13 +95,23 @@ func analyse(res *RunResult) []*ExecView {
 			v.Listeners = append(v.Listeners, e)
 		case EvProbeEnter:
 			nd := &Node{Exec: e.Exec, Pos: e.Pos, Stack: int(e.A), Task: e.Task, Enter: e}
-			// parent: innermost open node at Pos-1 along the task ancestry
+			// parent: the innermost open call at Pos-1 in the same task; otherwise the call
+			// at Pos-1 of an ancestor task during which this task's lineage was created
 			if e.Pos > 0 {
-				for t := e.Task; t >= 0 && nd.Parent == nil; t = parentOf(t) {
-					st := open[key{e.Exec, t}]
-					for j := len(st) - 1; j >= 0; j-- {
-						if st[j].Pos == e.Pos-1 {
-							nd.Parent = st[j]
+				st := open[key{e.Exec, e.Task}]
+				for j := len(st) - 1; j >= 0; j-- {
+					if st[j].Pos == e.Pos-1 {
+						nd.Parent = st[j]
+						break
+					}
+				}
+				for cur := e.Task; nd.Parent == nil && parentOf(cur) >= 0; cur = parentOf(cur) {
+					anc := parentOf(cur)
+					born := res.Tasks[cur].StartStep
+					for j := len(v.Nodes) - 1; j >= 0; j-- {
+						c := v.Nodes[j]
+						if c.Task == anc && c.Pos == e.Pos-1 && c.Enter.Step <= born && (c.Exit == nil || c.Exit.Step >= born) {
+							nd.Parent = c
 							break
 						}
 					}
